@@ -31,6 +31,56 @@ class StateInfo:
         return tuple(sorted(self.fid))
 
 
+def ill_conditioned(recipe, U, env, lt=None):
+    """Is the model value of the recipe - or of one of its sub-recipes - in this environment sensitive to the working
+    precision?  Each is re-evaluated with 15 digits (float64-like) and compared with the 50-digit value: non-finite,
+    astronomically large, or differing by more than 1e-6 relative (and 1e-13 absolute) => ill-conditioned (a pole such
+    as tan(acos(0)) or atan(i), a function of rounding noise such as ln(cos(acos(0))))."""
+    import mpmath
+    import numpy as np
+
+    from mc.sem.jet import const_of
+
+    def one(r):
+        try:
+            hi = L.interp(r, U, M.Ctx(env))
+            with mpmath.workdps(15):
+                lo = L.interp(r, U, M.Ctx(env))
+        except (L.LangError, Undefined, Ambiguous):
+            return False  # no value: nothing to say about this sub-recipe
+        except Exception:  # noqa: BLE001
+            return True
+        if hi.cond or lo.cond:
+            return False
+        a = np.asarray(hi.a, dtype=object).reshape(-1)
+        b = np.asarray(lo.a, dtype=object).reshape(-1)
+        if len(a) != len(b):
+            return True
+        for x, y in zip(a, b):
+            try:
+                x, y = mpmath.mpmathify(const_of(x)), mpmath.mpmathify(const_of(y))
+            except Exception:  # noqa: BLE001
+                return True
+            if not (mpmath.isfinite(x) and mpmath.isfinite(y)):
+                return True
+            m = max(abs(x), abs(y))
+            if m > mpmath.mpf("1e13"):
+                return True
+            d = abs(x - y)
+            if d > mpmath.mpf("1e-13") and d > mpmath.mpf("1e-6") * m:
+                return True
+        return False
+
+    def subs(r, acc):
+        if isinstance(r, tuple) and r and r[0] not in ("t", "num"):
+            acc.append(r)
+            for x in r[1:]:
+                subs(x, acc)
+        return acc
+
+    return any(one(r) for r in subs(recipe, []))
+
+
 def check_recipe(
     recipe, U, envs, part, pid, extra_check=None, tol=None, describe=None, compare=True, ill_typed_hook=None, check_undefined=False
 ):
@@ -133,6 +183,11 @@ def check_recipe(
             continue
         part.inc("validated")
         part.inc("evaluations")
+        if diff is not None and diff.get("kind") == "value" and ill_conditioned(recipe, U, env, lt):
+            # the reference value itself depends on the working precision here (a pole such as tan(acos(0)), atan(i),
+            # or a function of rounding noise such as ln(cos(acos(0)))): UFL folds literals in float64, no verdict
+            part.count("ill_conditioned_env")
+            continue
         if diff is not None:
             what = f"{diff['kind']} differs: {L.show_recipe(recipe)}"
             wit = {
